@@ -124,6 +124,7 @@ def configs(ctx: Ctx) -> list[dict[str, Any]]:
         add(["e", "p", "u"], 1, 1)
         add(["e", "e", "e"], None, 1)
         add(["u", "u"], 1, 1, True)
+        out.sort(key=lambda c: -_weight(c))
         return out
     pairs = [["u", "u"], ["u", "r"], ["p", "p"], ["e", "e"], ["p", "e"], ["e", "u"], ["h", "x"], ["c", "e"], ["c", "c"],
              ["x", "x"], ["up", "e"], ["eu", "ue"]]
@@ -140,7 +141,17 @@ def configs(ctx: Ctx) -> list[dict[str, Any]]:
     for maxc in (None, 1):
         add(["u", "u"], maxc, 1, True)
         add(["e", "e"], maxc, 1, True)
+    out.sort(key=lambda c: -_weight(c))
     return out
+
+
+_W = {"u": 2, "r": 2, "p": 5, "h": 6, "e": 5, "c": 5, "x": 5}
+
+
+def _weight(cfg: dict[str, Any]) -> int:
+    """Rough cost (points ** (bound+1)): heavy configurations first, so round-robin sharding spreads them."""
+    pts = sum(22 + sum(_W[k] for k in spec) * (4 if cfg["fine"] else 1) for spec in cfg["clients"])
+    return int((pts * len(cfg["clients"])) ** (cfg["bound"] + 1))
 
 
 def calls_of(cfg: dict[str, Any]) -> list[list[Call]]:
@@ -304,7 +315,7 @@ def run(ctx: Ctx) -> None:
     logging.getLogger("vgi_rpc").setLevel(logging.CRITICAL + 1)
     ctx.extra.update({"schedules": 0, "max_bound_completed": 0, "configs": 0, "deadlocks": 0, "max_choice_points": 0,
                       "max_steps": 0, "max_inside_serve": 0, "schedules_with_overlap": 0, "schedules_at_capacity": 0,
-                      "calls_compared": 0})
+                      "calls_compared": 0, "config_schedules": []})
 
     for cfg in configs(ctx):
         if not ctx.mine():
@@ -327,6 +338,7 @@ def run(ctx: Ctx) -> None:
         with N.delay_bounded():
             st = S.explore(ctx, rig.setup, judged, bound=cfg["bound"], label=label, trace=TRACE)
         ctx.extra["schedules"] += st["schedules"]
+        ctx.extra["config_schedules"].append(f"{label}={st['schedules']}")
         ctx.extra["configs"] += 1
         ctx.extra["deadlocks"] += st["deadlocks"]
         ctx.extra["max_choice_points"] = max(ctx.extra["max_choice_points"], st["max_points"])
